@@ -540,6 +540,32 @@ func filterCases() []caseT {
 		}
 		return got, v.ResultsFilteredByACLs, true, want
 	}})
+	// intentions whose source is a service of a peer cluster: the source name means nothing locally, so only
+	// the destination end can make them readable (the source is given the readable name "pub" on purpose)
+	cs = append(cs, caseT{"IndexedIntentions/peer-source", func(a acl.Authorizer, arr []el) ([]string, bool, bool, []string) {
+		v := &structs.IndexedIntentions{}
+		var want []string
+		for i, e := range arr {
+			if e.svcName == "" {
+				continue
+			}
+			src := "pub"
+			if i%2 == 1 {
+				src = "*"
+			}
+			x := &structs.Intention{ID: fmt.Sprint(i), SourceNS: "default", SourceName: src, SourcePeer: "peer1", DestinationNS: "default", DestinationName: e.svcName}
+			v.Intentions = append(v.Intentions, x)
+			if a.IntentionRead(e.svcName, nil) == acl.Allow {
+				want = append(want, fmt.Sprintf("%d:%s", i, e.svcName))
+			}
+		}
+		aclfilter.New(a, logger).Filter(v)
+		var got []string
+		for _, x := range v.Intentions {
+			got = append(got, x.ID+":"+x.DestinationName)
+		}
+		return got, v.ResultsFilteredByACLs, true, want
+	}})
 	cs = append(cs, caseT{"IndexedServiceDump", func(a acl.Authorizer, arr []el) ([]string, bool, bool, []string) {
 		v := &structs.IndexedServiceDump{}
 		var want []string
@@ -657,7 +683,7 @@ func runFilter(c *ev.Ctx) (evals int, cells map[string]bool) {
 
 func needsService(typ string) bool {
 	switch typ {
-	case "IndexedServiceList", "IndexedExportedServiceList", "IndexedGatewayServices", "IndexedIntentions", "IndexedServiceDump":
+	case "IndexedServiceList", "IndexedExportedServiceList", "IndexedGatewayServices", "IndexedIntentions", "IndexedIntentions/peer-source", "IndexedServiceDump":
 		return true
 	}
 	return false
